@@ -509,11 +509,17 @@ pub fn run(ctx: &Ctx) -> i32 {
     let mut rep = Report::new();
     enumerate(ctx, &mut rep);
     run_cases(ctx, &mut rep, "sampled", ctx.cases(150_000, 5_000_000), case);
+    // the real daemon: what it hands to its filter (its log) against the harness's own kernel timestamps
+    let workers = (ctx.threads as u64 / 2).clamp(2, 8);
+    let sum = crate::daemon::run_part(ctx, &mut rep, ctx.cases(workers, 12 * workers), workers);
+    if let Some(why) = &sum.skipped {
+        println!("note: end-to-end daemon part skipped ({}); the other parts are unaffected", why);
+    }
     let code = finish(
         Finish {
             ctx,
             level: "exploration",
-            rule: "a port made Slave by the protocol (two Announces + BMCA), recording filter with generated mean-delay replies, delay asymmetry of both signs; up to three Sync exchanges (one/two-step, ids around 65535->0, corrections of both signs up to 2^60, sub-ns receive timestamps, second boundaries, large magnitudes) and Delay exchanges whose ids the port chooses; schedule = generated sequence of deliveries with duplication, omission, reordering, late transmit timestamps, frames from a non-parent / for another requester, parent switch, leaving slave; 1/16 of the cases start after 65530..65536 delay requests (id wrap). Plus exhaustive enumeration of all schedules of length <= 6 (thorough 7) over a 7-symbol alphabet. Oracle: every Measurement must equal, bit for bit, the formula for one exchange with equal sequence id from the current parent. Non-trivial = not the in-order schedule and >= 1 measurement; distinct by schedule.",
+            rule: "a port made Slave by the protocol (two Announces + BMCA), recording filter with generated mean-delay replies, delay asymmetry of both signs; up to three Sync exchanges (one/two-step, ids around 65535->0, corrections of both signs up to 2^60, sub-ns receive timestamps, second boundaries, large magnitudes) and Delay exchanges whose ids the port chooses; schedule = generated sequence of deliveries with duplication, omission, reordering, late transmit timestamps, frames from a non-parent / for another requester, parent switch, leaving slave; 1/16 of the cases start after 65530..65536 delay requests (id wrap). Plus exhaustive enumeration of all schedules of length <= 6 (thorough 7) over a 7-symbol alphabet. Oracle: every Measurement must equal, bit for bit, the formula for one exchange with equal sequence id from the current parent. Part daemon: the real statime daemon slaved for 6-10 s to a grandmaster played by the harness (kernel transmit/receive timestamps, generated offset up to +-3 s and drift up to +-60 ppm, so that the daemon's clock is stepped and slewed during the case); the harness records every Sync it sent and every Delay_Req it answered and reads the daemon's clock off the daemon's master port; every measurement in the daemon's log must be that of one of those exchanges (event time within 2 ms of it) and carry its value: raw sync offset = t2 - t1, raw delay offset = t3 - t4 computed from the harness's own timestamps (latency 0..300 us, clock reading +-100 us). Non-trivial = not the in-order schedule and >= 1 measurement; distinct by schedule.",
             assumptions: vec!["double transmit timestamps are unrepresentable through the public API (TimestampContext is neither Clone nor constructible)".into(), "deliveries whose corrected time would be negative are skipped here (C03/C16)".into(), "halving tolerance: 1 unit of 2^-32 ns".into()],
             min_nontrivial: 100,
         },
@@ -528,6 +534,9 @@ pub fn run(ctx: &Ctx) -> i32 {
 pub fn replay(ctx: &Ctx, path: &str) -> i32 {
     let s = std::fs::read_to_string(path).expect("read replay");
     let v: serde_json::Value = serde_json::from_str(&s).expect("parse");
+    if v["part"].as_str() == Some("daemon") {
+        return crate::daemon::replay_part(ctx, path, 2);
+    }
     if v["part"].as_str() == Some("enumerated-schedules") {
         let mut rep = Report::new();
         enumerate(ctx, &mut rep);
